@@ -101,6 +101,8 @@ def judge_forms(ctx, op, forms, ref, exp, wit, exact=True, scale=1.0, charge=Non
 
 
 def dt(rng):
+    if rng.random() < 0.06:
+        return "int64"  # integer-typed blocks (counting tensors, 0/1 masks, adjacency data)
     return rng.choice(["float64", "float64", "complex128"])
 
 
